@@ -30,7 +30,17 @@ def harness_pairs(chk, progs, tag):
         elif o.get("warn"):
             chk.add("rejected_with_warning")
         else:
-            for k in ("events", "raw", "mentioned", "scratch_int", "scratch_float", "warn"):
+            if o.get("dead_scratch"):
+                # a register the source mentions only in a ternary branch removed by constant folding was handed
+                # out as scratch (hook events).  Reported under its own key; that register is left out of the
+                # watched set so that every other difference in the same program is still judged.
+                chk.add("dead_mention_scratch")
+                chk.report("scratch:mentioned-only-in-constant-dead-code",
+                           "register(s) %s mentioned only in constant-folded dead code are used as scratch in\n%s"
+                           % (",".join(o["dead_scratch"]), o["text"]),
+                           {"program": o["text"], "dead_scratch": o["dead_scratch"],
+                            "alloc_events": [e for e in o.get("events", []) if e.get("ev") == "alloc"]})
+            for k in ("events", "raw", "mentioned", "scratch_int", "scratch_float", "warn", "dead_scratch"):
                 o.pop(k, None)
             pairs.append(o)
     return pairs
